@@ -805,6 +805,23 @@ impl Scenario for EarlyStop {
 // ------------------------------------------------------------------------------------------------
 pub struct Truncate;
 
+/// Rebuild a well-framed stream packet by packet: `f` may edit the header and replace the payload; the size
+/// fields are recomputed.
+fn rebuild_stream(input: &[u8], f: &mut dyn FnMut(usize, &mut itsgen::rdh::Rdh, &mut Vec<u8>)) -> Vec<u8> {
+    let w = walk(input);
+    let mut out = Vec::with_capacity(input.len());
+    for (i, p) in w.pkts.iter().enumerate() {
+        let mut r = p.rdh.clone();
+        let mut payload = input[p.payload.clone()].to_vec();
+        f(i, &mut r, &mut payload);
+        r.memory_size = (64 + payload.len()) as u16;
+        r.offset_next = r.memory_size;
+        out.extend_from_slice(&r.to_bytes());
+        out.extend_from_slice(&payload);
+    }
+    out
+}
+
 impl Scenario for Truncate {
     fn property(&self) -> &'static str {
         "C18"
@@ -877,6 +894,61 @@ impl Scenario for Truncate {
                 label = "sample files".to_string();
             }
         }
+        // two special shapes, drawn independently of everything else
+        let special = rng.below(8);
+        let mut forced_filter: Option<Filter> = None;
+        let mut extra_cuts: Vec<u64> = Vec::new();
+        if special == 0 {
+            // payloads beyond 8 KiB (legal up to 10000 bytes): a cut inside one that is being skipped
+            let n = rng.range(2, 6) as usize;
+            let base = gen_arbitrary(&mut rng, n, 64, 2);
+            let big: Vec<usize> = (0..rng.range(1, 2)).map(|_| rng.usize_below(n)).collect();
+            let mut sizes: Vec<usize> = Vec::new();
+            for _ in 0..n {
+                sizes.push(rng.range(8193, 10_000) as usize);
+            }
+            input = rebuild_stream(&base, &mut |i, _r, payload| {
+                if big.contains(&i) {
+                    payload.resize(sizes[i], 0xA5);
+                }
+            });
+            let w = walk(&input);
+            for p in &w.pkts {
+                let (ps, pe) = (p.payload.start as u64, p.payload.end as u64);
+                if pe - ps > 8192 {
+                    for d in [1u64, 100, 500, 815, 816, 817, 1000, 1807, 1808, 1809] {
+                        extra_cuts.push(ps + d);
+                    }
+                    for d in [1u64, 8191, 8192, 8193] {
+                        extra_cuts.push(pe.saturating_sub(d));
+                    }
+                }
+            }
+            label = "payloads above 8 KiB".to_string();
+        } else if special == 1 {
+            // an exact multiple of the reader's batch size (100) of selected packets, then packets that the
+            // filter skips: the cut falls while the current batch is still empty
+            let n_a = *rng.pick(&[100usize, 200]);
+            let k = rng.range(1, 3) as usize;
+            let base = gen_arbitrary(&mut rng, n_a + k, 48, 1);
+            let w0 = walk(&base);
+            let a_link = w0.pkts.first().map(|p| p.rdh.link_id).unwrap_or(0);
+            let b_link = a_link.wrapping_add(1 + rng.below(200) as u8);
+            input = rebuild_stream(&base, &mut |i, r, payload| {
+                if i >= n_a {
+                    r.link_id = b_link;
+                    if payload.len() < 16 {
+                        payload.resize(40, 0x5A);
+                    }
+                }
+            });
+            forced_filter = Some(Filter::Link(a_link));
+            let w = walk(&input);
+            if let Some(first_b) = w.pkts.get(n_a) {
+                extra_cuts.extend(first_b.off as u64..=input.len() as u64);
+            }
+            label = format!("{n_a} selected packets then skipped ones");
+        }
         let len = input.len() as u64;
         let full_enum_limit = match tier {
             Tier::Quick => 1500,
@@ -888,15 +960,17 @@ impl Scenario for Truncate {
             label.push_str(" every-byte");
         } else {
             cuts.extend(0..=9u64.min(len));
-            let mut pos = 0u64;
-            for &(l, p) in &st.order {
-                let plen = 64 + st.links[l].packets[p].payload().len() as u64;
-                for c in [pos + 1, pos + 32, pos + 63, pos + 64, pos + 65, pos + 64 + (plen - 64) / 2, pos + plen - 1, pos + plen] {
+            // structural boundaries of the input as the independent walker sees them
+            let wb = walk(&input);
+            let stride = (wb.pkts.len() / 60).max(1);
+            for p in wb.pkts.iter().step_by(stride) {
+                let pos = p.off as u64;
+                let plen = p.rdh.offset_next as u64;
+                for c in [pos + 1, pos + 32, pos + 63, pos + 64, pos + 65, pos + 64 + (plen.max(64) - 64) / 2, pos + plen - 1, pos + plen] {
                     if c <= len {
                         cuts.push(c);
                     }
                 }
-                pos += plen;
             }
             let extra = match tier {
                 Tier::Quick => 40,
@@ -908,7 +982,7 @@ impl Scenario for Truncate {
             cuts.sort_unstable();
             cuts.dedup();
             // keep the quick tier bounded
-            if tier == Tier::Quick && cuts.len() > 400 {
+            if tier == Tier::Quick && cuts.len() > 400 && extra_cuts.is_empty() {
                 let mut keep = Vec::new();
                 let stride = cuts.len() as f64 / 400.0;
                 let mut x = 0.0;
@@ -920,15 +994,21 @@ impl Scenario for Truncate {
             }
             label.push_str(" boundaries");
         }
+        cuts.extend(extra_cuts.iter().copied().filter(|c| *c <= len));
+        cuts.sort_unstable();
+        cuts.dedup();
+        let arbitrary_payloads = special <= 1;
         let mut parts: Vec<String> = if rows_mode {
-            let v = if rng.chance(1, 2) { VIEW_MODES[0] } else { VIEW_MODES[1] };
+            let v = if arbitrary_payloads || rng.chance(1, 2) { VIEW_MODES[0] } else { VIEW_MODES[1] };
             label = format!("{} | {label}", v.join(" "));
             let mut p = s(v);
             p.push("-d".into());
             p
         } else {
-            label = format!("{} | {label}", CHECK_MODES[mode_i].join(" "));
-            s(CHECK_MODES[mode_i])
+            // (arbitrary payload bytes: the modes that do not interpret payloads)
+            let m = if arbitrary_payloads { [0usize, 2][mode_i % 2] } else { mode_i };
+            label = format!("{} | {label}", CHECK_MODES[m].join(" "));
+            s(CHECK_MODES[m])
         };
         let mut allowed = vec![0, 1];
         if rng.chance(1, 3) {
@@ -936,7 +1016,15 @@ impl Scenario for Truncate {
             parts.extend(s(&["-E", &n.to_string()]));
             allowed.push(n as i32);
         }
-        if rng.chance(1, 3) && !st.links.is_empty() {
+        if let Some(f) = forced_filter {
+            parts.extend(f.args());
+            label.push_str(" filter");
+        } else if arbitrary_payloads {
+            if rng.chance(2, 3) {
+                parts.extend(filter_from_walk(&input, &mut rng).args());
+                label.push_str(" filter");
+            }
+        } else if rng.chance(1, 3) && !st.links.is_empty() {
             // with a filter: the cut can fall inside a packet that is being skipped
             let l = &st.links[rng.usize_below(st.links.len())];
             let f = match rng.below(3) {
@@ -947,7 +1035,7 @@ impl Scenario for Truncate {
             parts.extend(f.args());
             label.push_str(" filter");
         }
-        let im = pick_input_mode(&mut rng);
+        let im = if arbitrary_payloads && rng.chance(2, 3) { InputMode::Pipe } else { pick_input_mode(&mut rng) };
         label.push_str(if im == InputMode::File { " file" } else { " pipe" });
         let mut full = specgen::spec(im, &parts, input);
         if rng.chance(1, 2) {
